@@ -119,6 +119,47 @@ META["C07"] = {
     "require": {"quick": {"runs_where_task_order_was_a_choice": 10000, "operators_covered": 8}, "thorough": {"operators_covered": 8}},
 }
 
+META["C09"] = {
+    "title": "Rate-limiting operators never invent, duplicate or reorder items",
+    "rule": "cases = (operator in debounce / throttle_time / throttle(duration selector) with all three edge modes / sample(interval) / buffer_with_time / buffer_with_count_and_time, window in {1,5,10} ms, timed script of 0..n uniquely numbered items (quick n=5, thorough n=9) whose gaps are 0, 1, window-1, window, window+1, 2*window(+1) ms, terminal none/complete/error, scheduler form, task order fifo|any, prompt|late schedule, seed). Every order of a source event and a timer falling due at the same instant is an explorer choice. Non-trivial: at least one item was suppressed or buffered AND at least one emission happened at an instant with no source event (i.e. was made by a timer); distinct = hash(case).",
+    "assumptions": COMMON_ASSUME + [
+        "invariants (only source items, at most once, in source order, source's terminal, buffers non-empty / <= count / concatenating to the source on completion) are checked on every run; the exact debounce and throttle models are applied to prompt runs only and branch where a source event coincides with a window end (either order accepted); late runs are judged by 'never earlier than arrival + window'",
+        "throttle model: leading edge emits the window-opening item at once; trailing edge emits the last item of the window at window end (in trailing-only mode the opener counts), each item at most once; the trailing emission does not open a window; completion flushes the trailing item",
+    ],
+    "technique": "runtime monitoring: unique-id conservation/order monitors plus exact timed reference models (debounce, throttle) over virtual-time stamps recorded by the probe, with same-instant timer/event order chosen by the explorer",
+    "level_text": "Exploration over sampled timed scripts and schedules; exact-model comparison on prompt runs, invariants on all runs.",
+    "level_note": "Trusted: debounce/throttle models in harness/src/props/c09.rs, virtual clock, arena executor.",
+    "design_ref": "DESIGN.md §5 C09",
+    "require": {"quick": {"operators_covered": 10, "exact_model_runs": 50000}, "thorough": {"operators_covered": 10}},
+}
+
+META["C15"] = {
+    "title": "finalize runs its callback exactly once per subscription",
+    "rule": "cases = (0-2 upstream operators incl. early-terminating ones, hot Subject or stashed create() handle as source, finalize | finalize_threads directly above the probe, history of length <= 6 quick / <= 10 thorough over item / complete / error / unsubscribe (terminals repeated through cloned handles), plain unsubscribe or guard drop). Non-trivial: the history contains at least two terminating triggers (e.g. complete then unsubscribe); distinct = hash(case). first_trigger_* counters show which event ended the subscriptions. The racing-thread part (terminating thread vs unsubscribing thread) runs under the baton scheduler (thread_* counters).",
+    "assumptions": COMMON_ASSUME + [
+        "finalize is placed last, so 'the subscription is completed / failed' is exactly 'the probe saw the terminal'",
+        "'right after' = before the next step of the history begins, and for an unsubscription before unsubscribe() returns",
+    ],
+    "technique": "runtime monitoring: counter and logical stamps of the finalize callback against the stamps of the first terminating event, over random histories on the real operator",
+    "level_text": "Exploration over sampled histories; counter == 1 exactly after the first trigger, never before, never again.",
+    "level_note": "Trusted: probe and log stamps of the harness.",
+    "design_ref": "DESIGN.md §5 C15",
+    "require": {"quick": {"first_trigger_unsub": 5000, "first_trigger_error": 5000}, "thorough": {"first_trigger_unsub": 5000}},
+}
+
+META["C20"] = {
+    "title": "group_by sends every item to exactly one group, in order",
+    "rule": "cases = (key function in {constant, identity, mod 2, mod 3}, script, group subject type Subject|SubjectThreads, hot Subject or cold create source). Enumerated: every script over {0,1,2,3} up to length 5 quick / 7 thorough x terminal {none, complete, error}; plus seeded random scripts up to length 8/12 with post-terminal events. A probe is attached to each group inside the outer observer's next (as the group is announced). Hot cases are additionally flattened back through group_by+flat_map and compared with the source. Non-trivial: at least two groups and one group with at least two items; distinct = hash(case).",
+    "assumptions": COMMON_ASSUME + [
+        "the relative order of the groups' terminals and the outer terminal is not part of the property and not checked",
+    ],
+    "technique": "runtime monitoring: per-group recording probes attached at announcement on the real group_by, checked against a partition model; flatten-back comparison",
+    "level_text": "Exploration: enumerated scripts x key functions plus random scripts, each compared with the partition model.",
+    "level_note": "Trusted: partition model in harness/src/props/c20.rs, probes.",
+    "design_ref": "DESIGN.md §5 C20",
+    "require": {"quick": {"group_subject_types": 2}, "thorough": {"group_subject_types": 2}},
+}
+
 
 # properties without a check yet are listed here with the reason; the list shrinks as checks land
 ALL_IDS = ['C01', 'C02', 'C03', 'C04', 'C05', 'C06', 'C07', 'C08', 'C09', 'C10', 'C11', 'C12', 'C13', 'C14', 'C15', 'C16', 'C17', 'C18', 'C19', 'C20']
